@@ -120,17 +120,18 @@ impl ServiceIndex {
     pub(crate) fn query_service_page(
         &self,
         namespace_id: &Arc<String>,
+        offset: usize,
         limit: usize,
         param: &ServiceQueryParam,
     ) -> (usize, Vec<ServiceKey>) {
         let mut rlist = vec![];
-        let end_index = param.offset + limit;
+        let end_index = offset + limit;
         let mut index = 0;
         for (g, set) in &self.group_service {
             if param.match_group(g) {
                 for s in set {
                     if param.match_service(s) {
-                        if index >= param.offset && index < end_index {
+                        if index >= offset && index < end_index {
                             let service_key =
                                 ServiceKey::new_by_arc(namespace_id.clone(), g.clone(), s.clone());
                             rlist.push(service_key);
@@ -236,15 +237,18 @@ impl NamespaceIndex {
         if let Some(namespace_id) = &param.namespace_id {
             if param.namespace_privilege.check_permission(namespace_id) {
                 if let Some(index) = self.namespace_group.get(namespace_id) {
-                    return index.query_service_page(namespace_id, limit, param);
+                    return index.query_service_page(namespace_id, param.offset, limit, param);
                 }
             }
         } else {
+            let mut offset = param.offset;
             for (namespace_id, service_index) in &self.namespace_group {
                 if param.namespace_privilege.check_permission(namespace_id) {
                     let (sub_size, mut sub_list) =
-                        service_index.query_service_page(namespace_id, limit, param);
+                        service_index.query_service_page(namespace_id, offset, limit, param);
                     size += sub_size;
+                    // the part of the offset this namespace has absorbed
+                    offset = offset.saturating_sub(sub_size);
                     limit -= sub_list.len();
                     rlist.append(&mut sub_list);
                 }
